@@ -483,7 +483,9 @@ def replay(w):
         if w.get('mask') is not None:
             kw['mask'] = np.array(w['mask'], dtype=bool)
         try:
-            out2 = EC.get_cycle_vector(ph, **kw)
+            # (a copy: the reference below is computed from `ph` itself.  `unwrapped`: the same phase handed over as a continuous, ever-growing
+            #  phase - the routine wraps it itself - must give the same good cycles)
+            out2 = EC.get_cycle_vector(np.unwrap(ph, axis=0) if w.get('unwrapped') else ph.copy(), **kw)
         except Exception as ex:
             return True, 'get_cycle_vector(%s, %s) raised %s: %s' % (np.round(ph, 3).tolist(), {k: v for k, v in kw.items() if k != 'mask'}, type(ex).__name__, ex)
         cols = ph.reshape(len(ph), -1)
@@ -498,14 +500,14 @@ def replay(w):
     if w.get('kind') == 'container_flag':
         ph = np.array(w['phase'], dtype=float)
         try:
-            C = EC.Cycles(ph, phase_edge=w['phase_edge'], use_cache=w['use_cache'])
+            C = EC.Cycles(ph[:, None] if w.get('layout') == 'column' else ph, phase_edge=w['phase_edge'], use_cache=w['use_cache'])     # (a phase column [n x 1] is a documented vector layout)
             got = [int(v) for v in C.metrics['is_good']]
         except Exception as ex:
             return True, 'Cycles(...) raised %s: %s' % (type(ex).__name__, ex)
         allc = ref_labels(ph, 1.5 * np.pi, w['phase_edge'], False, None)
         exp = [int(ref_is_good(ph[allc == c], w['phase_edge'])) for c in range(allc.max() + 1)]
         if got != exp:
-            return True, "metrics['is_good'] = %s, criteria give %s (use_cache=%s)" % (got, exp, w['use_cache'])
+            return True, "metrics['is_good'] = %s, criteria give %s (use_cache=%s%s)" % (got, exp, w['use_cache'], ', phase given as a column [n x 1]' if w.get('layout') == 'column' else '')
         return False, 'container flag agrees'
     return False, 'unknown witness kind'
 
@@ -517,7 +519,7 @@ def refute(tier, seed, emit):
     # alphabet with values inside both edge tolerances
     alpha = [0.1, 1.6, 3.1, 4.7, 6.2]
     edges = [0.05, np.pi / 12, np.pi / 2] if tier == 'quick' else [0.05, np.pi / 12, np.pi / 4, np.pi / 2]
-    emit.scope('every phase sequence of length 1..%d over %s x phase_edge in %s x masks {none, every single-False mask, block} x return_good {True, False}: labels compared with the criteria; container flag compared for cache on/off; non-trivial = at least one wrap' % (maxlen, alpha, [round(e, 3) for e in edges]), exhaustive=True)
+    emit.scope('every phase sequence of length 1..%d over %s x phase_edge in %s x masks {none, every single-False mask, block} x return_good {True, False}: labels compared with the criteria; container flag compared for cache on/off and for the phase given as a vector or as a column [n x 1]; non-trivial = at least one wrap' % (maxlen, alpha, [round(e, 3) for e in edges]), exhaustive=True)
     for t in seqs(alpha, maxlen):
         ph = np.array(t)
         n = len(ph)
@@ -536,11 +538,12 @@ def refute(tier, seed, emit):
                         emit.violation(cl + (':mask' if mk is not None else ''), w, msg)
             if haswrap:
                 for uc in (True, False):
-                    emit.case((t, edge, 'container', uc), contract='Cycles.is_good')
-                    w = {'kind': 'container_flag', 'phase': list(t), 'phase_edge': edge, 'use_cache': uc}
-                    ok, msg = replay(w)
-                    if ok:
-                        emit.violation('container-flag-agrees-with-criteria', w, msg)
+                    for lay in ('vector', 'column'):
+                        emit.case((t, edge, 'container', uc, lay), contract='Cycles.is_good')
+                        w = {'kind': 'container_flag', 'phase': list(t), 'phase_edge': edge, 'use_cache': uc, 'layout': lay}
+                        ok, msg = replay(w)
+                        if ok:
+                            emit.violation('container-flag-agrees-with-criteria' + ('' if lay == 'vector' else ':column-input'), w, msg)
         if emit.full:
             return
     # is_good itself on boundary values
@@ -572,7 +575,7 @@ def refute(tier, seed, emit):
             return
     r = rng(seed, 13)
     nlong = 20 if tier == 'quick' else 200
-    emit.scope('%d seeded long synthetic phases with random / block masks' % nlong)
+    emit.scope('%d seeded long synthetic phases with random / block masks, each also handed over unwrapped (values beyond 2pi)' % nlong)
     for k in range(nlong):
         n = int(r.randint(100, 800))
         f = np.abs(0.03 + 0.01 * r.randn() + 0.02 * np.cumsum(r.randn(n)) / np.sqrt(n))
@@ -585,10 +588,11 @@ def refute(tier, seed, emit):
             a0 = int(r.randint(0, n - 10))
             mk[a0:a0 + int(r.randint(1, n // 3))] = False
             mk = mk.tolist()
-        emit.case(('long', k), contract='get_cycle_vector')
-        w = {'kind': 'good_cycles', 'phase': ph.tolist(), 'phase_step': step, 'phase_edge': np.pi / 12, 'return_good': True, 'mask': mk}
-        ok, msg = replay(w)
-        if ok:
-            emit.violation('good-iff-criteria-and-mask' + (':mask' if mk is not None else ''), w, msg[:300])
+        for unw in (False, True):
+            emit.case(('long', k, unw), contract='get_cycle_vector')
+            w = {'kind': 'good_cycles', 'phase': ph.tolist(), 'phase_step': step, 'phase_edge': np.pi / 12, 'return_good': True, 'mask': mk, 'unwrapped': unw}
+            ok, msg = replay(w)
+            if ok:
+                emit.violation('good-iff-criteria-and-mask' + (':mask' if mk is not None else '') + (':unwrapped-phase' if unw else ''), w, msg[:300])
         if emit.full:
             return
